@@ -1429,6 +1429,7 @@ fn parent(a: &std::collections::HashMap<String, String>) {
             .args(std::env::args().skip(1))
             .env("MALLOC_ARENA_MAX", "1")
             .env("RAYON_NUM_THREADS", "1")
+            .env("RUST_BACKTRACE", "0")
             .status()
             .expect("re-exec");
         std::process::exit(st.code().unwrap_or(3));
@@ -1464,6 +1465,9 @@ fn parent(a: &std::collections::HashMap<String, String>) {
         if pid == 0 {
             // child: memory limit, stderr to the log, the main thread's default stack size
             unsafe { dup2(errf.as_raw_fd(), 2) };
+            // some dump formats print to the process's stdout: keep the REPORT channel clean
+            let null = std::fs::OpenOptions::new().write(true).open("/dev/null").expect("/dev/null");
+            unsafe { dup2(null.as_raw_fd(), 1) };
             limit_memory(mem);
             let code = std::thread::scope(|s| {
                 let h = std::thread::Builder::new().stack_size(8 << 20).spawn_scoped(s, || worker(&sh, from, &skips)).expect("thread");
@@ -1628,12 +1632,38 @@ fn show(a: &std::collections::HashMap<String, String>) {
     println!("{}", json!({"case": case, "kind": seed.kind, "len": input.len(), "bytes": bytes_json(&input[..input.len().min(4096)])}));
 }
 
+/// run one case in-process (no isolation), printing the outcome of every entry point;
+/// `--ep <substring>` restricts the entry points, `--trace` keeps the default panic hook (backtraces)
+fn one(a: &std::collections::HashMap<String, String>) {
+    let seeds = load_seeds(&a["seeds"]);
+    let cases = read_ndjson(&a["cases"]);
+    let id: usize = a["id"].parse().unwrap();
+    let case = &cases[id - 1];
+    let seed = &seeds[j_str(&case["seed"])];
+    let input = materialise(&seed.bytes, j_arr(&case["edits"]), id as u64, seed_from_env());
+    if !a.contains_key("trace") {
+        install_hook();
+    }
+    println!("case {id}: {}", serde_json::to_string(&case["muts"]).unwrap());
+    for name in ep_names(&seed.kind) {
+        if let Some(f) = a.get("ep") {
+            if !name.contains(f.as_str()) {
+                continue;
+            }
+        }
+        let r = run_ep(&seed.kind, &name, &input, "/verif/work/C05dev/one_scratch.dcm");
+        let loc = PANIC_LOC.with(|p| p.borrow().clone());
+        println!("  {name}: {r:?} {}", if r.is_err() { loc } else { String::new() });
+    }
+}
+
 fn main() {
     let a = args_map();
     match a.get("_0").map(|s| s.as_str()) {
         Some("seeds") => gen_seeds(&a["out"]),
         Some("run") => parent(&a),
         Some("show") => show(&a),
+        Some("one") => one(&a),
         _ => {
             eprintln!("usage: drv_malform seeds|run|show ...");
             std::process::exit(2);
